@@ -326,7 +326,14 @@ def run(tier, seed, replay=None):
                     rep.known("F-C13-dead-parameter-reserved-name")
                     fail = None
                     dead_collision = True
-        idxs = sorted(int(b[len(PARAM_PREFIX):]) for _, b in decl_can if re.fullmatch(re.escape(PARAM_PREFIX) + r"\d+", b))
+        # type and const parameters share one name space (an identifier; a lifetime's name carries its apostrophe): a type and a const parameter
+        # with one canonical name are two parameters with the same name (E0403) — seeded change C13h
+        tyco = [(a, b) for (k1, a), (_, b) in zip(decl_raw, decl_can) if k1 in ("ty", "co")]
+        names_tyco = [b for _, b in tyco]
+        if not fail and not dead_collision and len(set(names_tyco)) != len(names_tyco):
+            dup = {b for b in names_tyco if names_tyco.count(b) > 1}
+            if not all(any(a in dead and a == b for a, b2 in tyco if b2 == b) for b in dup):
+                fail = {"clause": "distinct parameters must receive distinct names (a type and a const parameter share one name space)", "names": names_tyco}
         # occurrences: the canonical block is the raw block under the renaming read off the generics list
         if not fail and not dead_collision:
             want = norm_paths(independent_rename(renameless_generics(raw, decl_can), ren), PARAM_PREFIX)
